@@ -136,8 +136,10 @@ def supervisor_typestate(ck, A):
     for n in cfg.stmt_nodes(lambda n: n.kind == "stmt"):
         for c in q.calls(n.ast):
             if q.is_call(c, A.children + ".pop") and c.args and q.dotted(c.args[0]) == A.pid:
-                if len(c.args) != 1:
-                    raise AnalysisError("children.pop(pid, default): unknown idiom for the unknown-pid rule")
+                if len(c.args) == 2 and not q.is_const(c.args[1], None):
+                    raise AnalysisError("children.pop(pid, <non-None default>): unknown idiom for the unknown-pid rule")
+                if len(c.args) > 2:
+                    raise AnalysisError("children.pop with more than two arguments")
                 bn = _bound_name(n)
                 if bn is None:
                     raise AnalysisError("result of %s.pop(%s) is not bound to a name" % (A.children, A.pid))
@@ -339,6 +341,21 @@ def rule_unknown_pid(ck, A):
         for c in q.calls(n.ast):
             if q.is_call(c, A.children + ".pop") or any(isinstance(s, ast.Subscript) and q.dotted(s.value) == A.children and isinstance(s.ctx, (ast.Load, ast.Del)) for s in ast.walk(n.ast)):
                 cnt += 1
+                if q.is_call(c, A.children + ".pop") and len(c.args) == 2:
+                    # pop(pid, None): an unknown pid yields None, which must leave the iteration before any accounting:
+                    # at every counter update and every start_child call of the loop the popped value is known not to be None
+                    bn_ = _bound_name(n)
+                    in_loop_ = lambda a_: any(x is A.loop for x in q.ancestors(A.pm, a_))
+                    acct = [m_ for m_ in fi.cfg.stmt_nodes(lambda m_: m_.kind == "stmt" and in_loop_(m_.ast) and m_.id != n.id and (
+                        isinstance(m_.ast, ast.AugAssign) or any(isinstance(x, ast.Call) and q.call_attr(x) == A.start_call for x in q.walk_local(m_.ast))))]
+                    if bn_ is None or not acct:
+                        raise AnalysisError("children.pop(pid, None): result not bound / no accounting site found")
+                    bad_ = [m_ for m_ in acct if ("%s is None" % bn_, False) not in expanded_facts(fi, facts[m_.id])]
+                    ck.ob("C41.unknown-pid", fi, n.ast, not bad_,
+                          "pids that are not our workers are skipped before any accounting: after `%s = %s.pop(%s, None)` every counter update / restart is reached only with `%s is not None`%s" % (
+                              bn_, A.children, A.pid, bn_, ("; reached unguarded: " + q.unparse(bad_[0].ast)[:50]) if bad_ else ""),
+                          construct="pop-default-none " + ("unguarded" if bad_ else "guarded"))
+                    break
                 hd = protected(A.pm, c, "KeyError") if q.is_call(c, A.children + ".pop") else None
                 skips = isinstance(hd, ast.ExceptHandler) and bool(hd.body) and isinstance(hd.body[-1], (ast.Continue, ast.Return, ast.Raise)) and not any(
                     isinstance(x, ast.Call) and q.call_attr(x) == A.start_call for st_ in hd.body for x in ast.walk(st_))
@@ -553,6 +570,7 @@ def _count_only_signals(root):
 
 
 MUTANTS = [
+    ("seeded C41-adv6: unknown pids accounted as worker exits (pop(pid, None) without a guard)", _m(lambda root: _pop_default(root)), "C41.unknown-pid"),
     ("seeded C41-adv4: restarts counted per task id", _m(lambda root: _per_id_budget(root)), "C41.budget"),
     ("seeded C41-adv1: budget default applied by truthiness (0 becomes 100)", _m(replace_stmt(lambda st: isinstance(st, ast.If) and _src(st.test) == "max_restarts is None", lambda st: [parse_stmt("max_restarts = max_restarts or 100")])), "C41.defaults"),
     ("budget default applied with `if not max_restarts`", _m(replace_expr(lambda n: isinstance(n, ast.Compare) and _src(n) == "max_restarts is None", lambda n: parse_expr("not max_restarts"))), "C41.defaults"),
@@ -599,3 +617,17 @@ def _per_id_budget(root):
             st.test = parse_expr("num_restarts[id] > max_restarts")
             done += 1
     return done == 3
+
+
+def _pop_default(root):
+    lp = _sup_loop(root)
+    b = lp.body
+    keep = [st for st in b if not (isinstance(st, ast.If) and "not in children" in _src(st.test))]
+    if len(keep) == len(b):
+        return False
+    for i, st in enumerate(keep):
+        if isinstance(st, ast.Assign) and _src(st) == "id = children.pop(pid)":
+            keep[i] = parse_stmt("id = children.pop(pid, None)")
+            lp.body = keep
+            return True
+    return False
